@@ -153,6 +153,23 @@ def decode(line: str):
         raise MachineryError("unparsable TLC JSON line: " + line[:200])
 
 
+def rejected(r: TLCResult, nlines: int, what: str) -> dict:
+    """Rejections reported by a trace specification: {line number: info}.  The trace spec prints one JSON record per
+    rejected line and, from its POSTCONDITION, the total number of rejected lines; both must agree, and every line
+    must have been consumed -- otherwise the run is a machinery failure, never a (non-)verdict."""
+    out, total = {}, None
+    for j in r.json_lines:
+        if isinstance(j, dict) and "rej" in j:
+            out[int(j["rej"])] = j.get("info")
+        elif isinstance(j, dict) and "rejected_total" in j:
+            total = int(j["rejected_total"])
+    if r.distinct - 1 != nlines:
+        raise MachineryError(f"{what}: consumed {r.distinct - 1} of {nlines} lines\n" + r.stdout[-3000:])
+    if total is None or total != len(out):
+        raise MachineryError(f"{what}: {len(out)} rejections parsed but the trace spec counted {total}\n" + r.stdout[-2000:])
+    return out
+
+
 def require_clean(r: TLCResult, what: str) -> None:
     """A run that neither completed nor reported a property violation is a machinery failure."""
     if r.ok or r.violated:
